@@ -111,6 +111,9 @@ def check_matrix(kind, M, m, nrows=None, origin=""):
         A, B = np.asarray(M), np.array(M)
         if A.shape != X.shape or not np.array_equal(A, X, equal_nan=True) or not np.array_equal(B, X, equal_nan=True):
             m.violation("views-agree", f"{kind}: numpy conversion differs from design_matrix", key="views:numpy-" + kind)
+        if B.size and np.shares_memory(B, X):
+            # np.array(m) promises a copy: writing into it must not reach the design
+            m.violation("views-agree", f"{kind}: np.array(matrix) shares memory with design_matrix", key="views:array-not-a-copy")
         if hasattr(M, "as_dataframe"):
             dfv = M.as_dataframe()
             V = dfv.to_numpy()
